@@ -96,6 +96,7 @@ type Config struct {
 }
 
 type Interp struct {
+	holdTimers bool // timers fire only through verifAdvance (verifHoldTimers)
 	prog *ssa.Program
 	tb   *TB
 	cfg  *Config
